@@ -290,6 +290,14 @@ def tablePrefixOk : Table → Bool
   | [] => true
   | (_, h) :: t => handlerPrefixOk h && tablePrefixOk t
 
+/-- how a value of the declared type has to be accessed: `->` for a pointer type, `.` otherwise -/
+def accessOp (ty : Str) : Str := if ty.getLast? = some '*' then "->".toList else ".".toList
+
+/-- the result (or an element of the resulting collection) is used according to its declared type -/
+def AccessSpec (ty op : Str) : Prop := op = accessOp ty
+
+instance (ty op : Str) : Decidable (AccessSpec ty op) := by unfold AccessSpec; exact inferInstance
+
 /-- documented signature of a table entry: (is a method, number of arguments, returns a collection) -/
 def sigOf (t : Table) (n : String) : Option (Bool × Nat × Bool) :=
   match t.get? n.toList with
